@@ -382,6 +382,14 @@ Definition to_text (full : bool) (u : url) : mres text :=
    (match.start(1), match.end(1); group 0 = group 1).  Items of the result: (true, URL) | (false, text). *)
 Definition slice (t : text) (a b : nat) : text := firstn (b - a) (skipn a t).
 
+(* what is assumed of the oracle: the matches of a regular expression that cannot match the empty string come in
+   order, do not overlap and lie inside the text (checked on the implementation's matches in every links case) *)
+Fixpoint spans_okb (n prev : nat) (spans : list (nat * nat)) : bool :=
+  match spans with
+  | [] => true
+  | (a, b) :: r => Nat.leb prev a && Nat.ltb a b && Nat.leb b n && spans_okb n b r
+  end.
+
 (* _add_text: glue onto a preceding text piece *)
 Definition add_text (ret : list (bool * url + text)) (s : text) : list (bool * url + text) :=
   match rev ret with
